@@ -205,8 +205,8 @@ def spline_file(orders, knots, coeffs, extents=None, periods=None, aux=(), singl
     """orders[d], knots[d][...], coeffs flat in C order over naxes[d] = len(knots[d]) - orders[d] - 1;
     layout: float coefficient image with reversed axis order, ORDERn keys, KNOTSn double extensions, EXTENTS extension"""
     nd = len(orders); naxes = [len(knots[d]) - orders[d] - 1 for d in range(nd)]
-    cards = [card("COMMENT", None, "  FITS (Flexible Image Transport System) format is defined in 'Astronomy"),
-             card("COMMENT", None, "  and Astrophysics', volume 376, page 359; bibcode: 2001A&A...376..359H"),
+    cards = [card("COMMENT", None, " FITS (Flexible Image Transport System) format is defined in 'Astronomy"),
+             card("COMMENT", None, " and Astrophysics', volume 376, page 359; bibcode: 2001A&A...376..359H"),
              card("TYPE", "Spline Coefficient Table")]
     if single_order: cards.append(card("ORDER", orders[0], "B-Spline Order"))
     else: cards += [card("ORDER%d" % d, orders[d], "B-Spline Order") for d in range(nd)]
@@ -239,3 +239,55 @@ def replace_card(h, key, new):
             if new is not None: out.append(new)
         else: out.append(c)
     h.cards = out
+
+# ------------------------------------------------------------------ writing (cfitsio: ffcrim / ffppx / ffpky / ffuky)
+def quote_string(s):
+    """ffs2c: quotes doubled, padded to at least 8 characters, at most 68 characters of value are kept"""
+    return "'%-8s'" % s[:68].replace("'", "''")
+
+def key_card(key, valuestr, comment, is_string):
+    """ffmkky: fixed-format card from a keyword name, a formatted value string and an optional comment"""
+    key = key.strip()
+    if len(key) <= 8 and " " not in key:
+        c = "%-8s= " % key.upper()
+        c += valuestr if is_string else "%20s" % valuestr
+    else:
+        c = "HIERARCH " + key + " = " + valuestr
+        if len(c) > 80: c = "HIERARCH " + key + "= " + valuestr
+        if len(c) > 80: c = "HIERARCH " + key + "=" + valuestr
+    if comment:
+        if len(c) < 30: c = c.ljust(30)
+        c += " / " + comment
+    return c[:80].ljust(80)
+
+class Writer:
+    """a fitsfile* opened for writing; builds a Fits"""
+    def __init__(self): self.f = Fits([]); self.cur = -1
+    def create_img(self, bitpix, axes):
+        if any(a < 0 for a in axes): return 213       # BAD_NAXES
+        primary = not self.f.hdus
+        comments = (["file does conform to FITS standard", "number of bits per data pixel", "number of data axes"] if primary else ["IMAGE extension", "number of bits per data pixel", "number of data axes"])
+        cs = [key_card("SIMPLE", "T", comments[0], False) if primary else key_card("XTENSION", quote_string("IMAGE"), comments[0], True),
+              key_card("BITPIX", str(bitpix), comments[1], False), key_card("NAXIS", str(len(axes)), comments[2], False)]
+        cs += [key_card("NAXIS%d" % (k + 1), str(a), "length of data axis %d" % (k + 1), False) for k, a in enumerate(axes)]
+        if primary:
+            cs += [key_card("EXTEND", "T", "FITS dataset may contain extensions", False),
+                   card("COMMENT", None, " FITS (Flexible Image Transport System) format is defined in 'Astronomy"),
+                   card("COMMENT", None, " and Astrophysics', volume 376, page 359; bibcode: 2001A&A...376..359H")]
+        else:
+            cs += [key_card("PCOUNT", "0", "required keyword; must = 0", False), key_card("GCOUNT", "1", "required keyword; must = 1", False)]
+        h = HDU(cs, [], bitpix, axes, primary); h.data = [Fr(0)] * h.npix()
+        self.f.hdus.append(h); self.cur = len(self.f.hdus) - 1
+        return 0
+    def hdu(self): return self.f.hdus[self.cur]
+    def write_pix(self, first, values):
+        h = self.hdu()
+        if not values: return 0
+        if first < 1 or first + len(values) - 1 > h.npix(): return BAD_ROW_NUM
+        h.data[first - 1:first - 1 + len(values)] = list(values); return 0
+    def write_key(self, name, valuestr, comment, is_string, update=False):
+        c = key_card(name, valuestr, comment, is_string); h = self.hdu()
+        if update:
+            for k, old in enumerate(h.cards):
+                if card_name(old).upper() == name.strip().upper(): h.cards[k] = c; return 0
+        h.cards.append(c); return 0
